@@ -41,6 +41,10 @@ structure Dev where
   /-- `aggregate_scalar_simd` (global, one batch, one aggregate): MIN / MAX over no valid value return the fold's
       start sentinel (`unwrap_or(i64::MAX)` …) instead of NULL -/
   scalarMinMaxSentinel : Bool := false
+  /-- MorselAggregateExec over Parquet: the input type of an aggregate whose argument is written with a qualified
+      column name (`t.x`) cannot be looked up (`data_type(..).unwrap_or(Float64)`): SUM over BIGINT accumulates in the
+      f64 arm and the Float64 result does not fit the BIGINT output column — NULL -/
+  qualifiedSumIntNull : Bool := false
 deriving Repr, DecidableEq, Inhabited
 
 /-- an aggregate as the physical operator sees it: function, DISTINCT flag, input column type
@@ -428,7 +432,9 @@ def aggOne (dev : Dev) (fo : FloatOps) (p : Path) (a : Agg) (args : List Val) : 
   match p with
   | .hash => (hash dev fo a).run (.leaf args)
   | .vectorized => (vectorized fo a).run (.leaf args)
-  | .morsel => (morsel fo a).run (.leaf args)
+  | .morsel =>
+    if dev.qualifiedSumIntNull && a.fn == .sum && a.ty == .int then .null
+    else (morsel fo a).run (.leaf args)
   | .raw => (rawSum dev fo a).run (.leaf args)
   | .scalar =>
     -- hash_agg.rs `aggregate_scalar_simd` (1503): Arrow iterators over the single batch; same values as the hash
